@@ -576,6 +576,12 @@ pub fn run_sessions(sessions: &[J], out: &mut dyn Write, scratch: &Path) -> J {
             let q = c["query"].as_str().unwrap_or("");
             let mode = c["mode"].as_str().unwrap_or("read");
             learn_rel_names(&db);
+            // C32: a scripted clock for the external ids of the nodes this statement creates
+            let scripted_clock = c.get("clock").and_then(|x| x.as_array()).map(|a| a.iter().map(|t| t.as_u64().unwrap()).collect::<Vec<u64>>());
+            if let (Some(cl), Some(obs)) = (&scripted_clock, crate::obs::GLOBAL.get()) {
+                *obs.clock.lock().unwrap() = Some(cl.clone());
+                obs.clock_log.lock().unwrap().clear();
+            }
             let o = if mode == "admin" {
                 let r: Result<(), String> = if q == "#compact" {
                     db.compact().map_err(|e| e.to_string())
@@ -614,6 +620,11 @@ pub fn run_sessions(sessions: &[J], out: &mut dyn Write, scratch: &Path) -> J {
             let mut ev = json!({"ev": "case", "sid": sid, "cid": c["cid"], "kind": c["kind"], "mode": mode,
                                 "query": q, "params": echo, "meta": c.get("meta").cloned().unwrap_or(json!({})),
                                 "res": o.to_json()});
+            if let (Some(_), Some(obs)) = (&scripted_clock, crate::obs::GLOBAL.get()) {
+                *obs.clock.lock().unwrap() = None;
+                let log: Vec<J> = obs.clock_log.lock().unwrap().iter().map(|(c, t)| json!([c, t])).collect();
+                ev["clock_reads"] = J::Array(log);
+            }
             if let Some(qs) = c.get("queries").and_then(|x| x.as_array()) {
                 let mut rq = Vec::new();
                 for q2 in qs {
